@@ -70,9 +70,10 @@ def main():
     ap.add_argument("--args", type=int, default=8)
     ap.add_argument("--include-known", action="store_true")
     ap.add_argument("--allow-hazard", action="store_true")
+    ap.add_argument("--focus", default=None)
     ap.add_argument("--kind", default=None, help="restrict to this failure kind (compile_panic, disagree, machine_panic, rejected)")
     a = ap.parse_args()
-    opts = {"allow_hazard": a.allow_hazard, "include_known": a.include_known}
+    opts = {"allow_hazard": a.allow_hazard, "include_known": a.include_known, "focus": a.focus}
     c = run_c01.build_case(a.seed, a.index, a.args, a.size, opts)
     m = c["module"]
     vals = {e["name"]: e["values"] for e in c["entries"]}
